@@ -98,6 +98,8 @@ and look for entries of ended sessions (C05). A discrepancy is reported once, at
 labelled with that event; `predicted` says that the model of the code computes exactly the observed tables,
 i.e. the violation is the code's own documented behaviour and not a deviation from it. -/
 def tableFindings (st : St) (obs : Json) (checkImage : Bool) (label : String) : St × List Finding :=
+  -- a reply observed while requests of other associations were in flight carries no table snapshot
+  if getBool obs "conc_skip" then (st, []) else
   let obsT := sortStrs ((getStrs obs "tables").filter isLookup)
   let modT := sortStrs (tableLines st.w.tables)
   let imgT := sortStrs (tableLines (image st.cfg st.w))
@@ -119,6 +121,7 @@ def tableFindings (st : St) (obs : Json) (checkImage : Bool) (label : String) : 
 
 /-- C09 on the observed QoS entries of one session: gate, rates, bursts as signalled -/
 def qosFindings (pre : String) (cfg : Cfg) (tables : List String) (seid : Nat) (qers : List QerIE) : List Finding :=
+  if tables.isEmpty then [] else
   qers.flatMap fun q =>
     let c := qosFor cfg q.qfi
     [(Sdf.access, q.gateUL, q.mbrUL, q.gbrUL), (Sdf.core, q.gateDL, q.mbrDL, q.gbrDL)].filterMap fun (iface, gate, mbr, gbr) =>
